@@ -83,6 +83,11 @@ run_case(const uint8_t *data, size_t size)
       decoder_init(&ds);
       for (;;) {
         rv = retrieve(&ds, &bs);
+        if (bs.data > bs.limit) {
+          /* the retriever consumed input words that were not made available */
+          fprintf(stderr, "runtime error: dec_h: retrieve() read %ld words beyond the input limit\n", (long)(bs.data - bs.limit));
+          abort();
+        }
         if (rv != MORE)
           break;
         if (bs.eof) {
